@@ -45,7 +45,7 @@ def judge(recs):
     F = {"class": "?", "c_behav": "?", "payments": 0, "parts": 0, "mpp": 0, "c_claimed": 0, "parts_claimed_up": 0,
          "parts_failed_up": 0, "onchain_d": 0, "onchain_u": 0, "b_closed_d": 0, "bursts": 0, "fee_updates_seen": 0,
          "fee_updates_accepted": 0, "fee_updates_refused": 0, "dust_points": 0, "dust_points_nonzero": 0,
-         "reloads": 0, "late_claims": 0, "stuck": 0, "same_block_claims": 0, "max_exposure_seen": 0}
+         "reloads": 0, "b_funds_d": 0, "own_fee_updates": 0, "late_claims": 0, "stuck": 0, "signer_artifact": 0, "same_block_claims": 0, "max_exposure_seen": 0}
     dust_samples = []   # (htlcs, local, feerate, python_value) for the cross-check against the generated function
     cfg, funding = {}, {}
     pays = {}            # hash -> {"k":, "parts": n}
@@ -65,6 +65,7 @@ def judge(recs):
     u_closed_step = None
     startup_close = False
     reload_step = None
+    b_funds_d = False
     for (ln, step, kind, kv) in recs:
         if kind == "PARAMS":
             raw = kv.get("raw", "")
@@ -72,6 +73,8 @@ def judge(recs):
             F["class"] = m.group(1) if m else "?"
             m = re.search(r"c_behav:(\w+)", raw)
             F["c_behav"] = m.group(1) if m else "?"
+            b_funds_d = "b_funds_d:true" in raw
+            F["b_funds_d"] = 1 if b_funds_d else 0
         elif kind == "CHAN":
             cfg[kv["name"]] = {"prop": int(kv["prop"]), "base": int(kv["base"]), "delta": int(kv["delta"]),
                                "max_dust": int(kv["max_dust"]), "dust": int(kv["dust_limit"]), "cp_dust": int(kv.get("cp_dust_limit", kv["dust_limit"]))}
@@ -87,7 +90,12 @@ def judge(recs):
                 F["mpp"] += 1
         elif kind == "PANIC":
             msg = kv.get("msg", "?")
-            V.append({"key": J.F2 if "Non-event-generating_channel_freeing" in msg else "panic", "judge": "harness/implementation panic", "why": msg[:400], "step": step})
+            pk = J.panic_key(msg)
+            if pk is None:
+                F["signer_artifact"] = 1
+                end = {"artifact": "1"}
+            else:
+                V.append({"key": pk, "judge": "harness/implementation panic", "why": msg[:400], "step": step})
         elif kind == "RELOADFAIL":
             V.append({"key": "restart", "judge": "restart", "why": "B could not restart from its durable state: %s %s" % (kv.get("what"), kv.get("err", "")), "step": step})
         elif kind == "STUCK":
@@ -158,6 +166,14 @@ def judge(recs):
                 claimed_up.add((ch, kv["htlc_id"]))
             if kind in ("SEND", "DROP") and link == "BA" and ty in ("fail", "malformed"):
                 failed_up.add((ch, kv["htlc_id"]))
+            # update_fee BY B (it funds the channel): its own choice, so both exposures must fit
+            if kind in ("SEND", "DROP") and link in ("BA", "BC") and ty == "fee":
+                F["own_fee_updates"] += 1
+                st = chst.get(ch)
+                if st and ch in cfg:
+                    hs = [(False, a) for (a, s_) in st["in"].values() if s_ == "Committed"] + \
+                         [(True, a) for (a, s_) in st["out"].values() if s_ == "Committed"]
+                    check_dust(V, F, dust_samples, cfg[ch], ch, int(kv["feerate"]), hs, step, "B sent update_fee %s sat/kw" % kv["feerate"])
             # update_fee towards B
             if kind == "RECV" and link in ("AB", "CB") and ty == "fee":
                 F["fee_updates_seen"] += 1
@@ -180,11 +196,30 @@ def judge(recs):
         elif kind == "END":
             end = kv
     # ---- every part of a payment C claimed is claimed upstream
+    def d_commitments():
+        """confirmed transactions spending a downstream funding output -> list of output values"""
+        res = []
+        for txid in confirmed:
+            info = txs.get(txid)
+            if info and any(fo in info["ins"] for n, fo in funding.items() if n.startswith("D")):
+                res.append(info["outs"])
+        return res
+    dcs = d_commitments()
     for h, p in pays.items():
         if h not in c_claimed:
             continue
         for (ch, hid), u in sorted(up.items()):
             if u["hash"] != h:
+                continue
+            # its downstream twin: same hash, amount + B's fee closest to what came in
+            twins = [d for d in down.values() if d["hash"] == h]
+            if not twins:
+                continue
+            c0 = cfg.get("D", {"prop": 0, "base": 0})
+            tw = min(twins, key=lambda d: abs(u["amt"] - (d["amt"] + d["amt"] * c0["prop"] // M + c0["base"])))
+            if dcs and all((tw["amt"] // 1000) not in outs for outs in dcs):
+                # the downstream channel went on chain and the HTLC has no output there: C's "claim" moved no
+                # money, failing back upstream after the burial is right (the amount is a dust forfeit)
                 continue
             key = "F1" if False else "c:part-claimed-upstream"
             if (ch, hid) in failed_up and not startup_close:
@@ -192,12 +227,13 @@ def judge(recs):
                           "why": "C claimed payment %s (%d parts) but B failed upstream HTLC %s on %s (%d msat) back to A" % (h, p["parts"], hid, ch, u["amt"]), "step": 0})
             elif (ch, hid) in claimed_up:
                 F["parts_claimed_up"] += 1
-            elif ch not in closed_b and end is not None and not F["stuck"] and not startup_close:
+            elif ch not in closed_b and end is not None and "bal" in end and not F["stuck"] and not startup_close:
                 V.append({"key": key, "judge": "c:claim-whenever-known (per part)",
                           "why": "C claimed payment %s (%d parts) but B never sent update_fulfill_htlc for upstream HTLC %s on %s (%d msat) although that channel stayed open" % (h, p["parts"], hid, ch, u["amt"]), "step": 0})
     F["parts_failed_up"] = len(failed_up)
     # ---- ledger
-    if end is not None and "bal" in end and bal0 is not None and not F["stuck"]:
+    if end is not None and "bal" in end and bal0 is not None and not F["stuck"] and not b_funds_d:
+        # (when B funds a channel its claimable balance moves with the commitment fee: no ledger then)
         total = int(end["bal"]) + int(end["swept"]) + fees_b
         nclosed = len(closed_b) + (1 if F["onchain_d"] or F["onchain_u"] else 0)
         tol = 2 + 2 * (nclosed + len(pays)) + 2 * len(up)
